@@ -452,11 +452,11 @@ def run_e2e(spec, work, counters, viol, feats):
 def gen_cases(tier, seed):
     rng = np.random.default_rng([seed, 108])
     cases = []
-    n1 = 12 if tier == 'quick' else 120
+    n1 = 12 if tier == 'quick' else 1600
     for i in range(n1):
         cases.append({'mode': 'layer1', 'seed': int(rng.integers(2 ** 31)),
                       'n_tables': 60})
-    n2 = 40 if tier == 'quick' else 400
+    n2 = 40 if tier == 'quick' else 3200
     e2e = mapcases.nasty_quick_cases(rng, n2 // 2) + \
         mapcases.random_large_cases(rng, n2 - n2 // 2, max_leaves=14,
                                     max_cells=30)
